@@ -10,10 +10,26 @@ Open Scope Z_scope.
    the non-empty components, lexically under the root (posixpath.join / PurePosixPath semantics of Model/C19Path.v) *)
 Theorem C19_request_to_localpath_confined : forall self req p, root_ok (fs_root self) ->
   request_to_localpath self req = Ok p ->
-  load_parts p = {| anchor := 1; parts := parts (load_parts (fs_root self)) ++ filter nonempty (opt_uri_path req) |}
+  load_parts p = {| anchor := anchor (load_parts (fs_root self));
+                    parts := parts (load_parts (fs_root self)) ++ filter nonempty (opt_uri_path req) |}
   /\ under (load_parts (fs_root self)) (load_parts p) = true.
 Proof. exact request_to_localpath_confined. Qed.
 Print Assumptions C19_request_to_localpath_confined.
+(* root_ok covers absolute roots ("/srv/root") and relative ones (".", "sub", "./sub/" — the CLI default is "."): under a
+   relative root every accepted request stays a relative path (anchor 0: no absolute replacement) made of the root's parts
+   followed by non-empty, non-".." components — a location at or below the root directory whatever the working directory is *)
+Theorem C19_relative_root_stays_relative : forall self req p, fs_root self <> [] -> root_rel (fs_root self) ->
+  request_to_localpath self req = Ok p ->
+  anchor (load_parts p) = 0
+  /\ exists rest, parts (load_parts p) = parts (load_parts (fs_root self)) ++ rest /\ ~ In DOTDOT rest /\ ~ In [] rest.
+Proof.
+  intros self req p Hne Hrel H.
+  destruct (request_to_localpath_confined self req p (conj Hne (or_intror Hrel)) H) as [Hp Hu].
+  split; [rewrite Hp; cbn [anchor]; exact (proj2 (root_anchor _ Hne) Hrel)|].
+  destruct (under_inv _ _ Hu) as [_ [rest [Hr Hd]]]. exists rest. split; [exact Hr|]. split; [exact Hd|].
+  rewrite Hp in Hr. cbn [parts] in Hr. apply app_inv_head in Hr. subst rest. intros Hin. apply filter_In in Hin as [_ Hin]. discriminate.
+Qed.
+Print Assumptions C19_relative_root_stays_relative.
 
 (* the only exception it raises is InvalidPathError (4.00); it raises it for every component with a slash, "." or "..",
    and accepts everything else (NUL, look-alikes, leading/trailing/inner empty components ...) *)
@@ -36,12 +52,21 @@ Theorem C19_under_is_prefix : forall root p, under root p = true ->
 Proof. exact under_inv. Qed.
 Print Assumptions C19_under_is_prefix.
 
-(* ================= 2. confinement of the whole server: for every server configuration with an absolute root, every
-   file-system state, every request (any method, any options, any payload): every effect (stat, open, listdir,
-   temp-file creation, rename, unlink) is on a path under the root, and no entry outside the root changes *)
+(* ================= 2. confinement of the whole server: for every server configuration with an absolute or relative root,
+   every file-system state, every request (any method, any options incl. Block1 sequences, any payload): every effect (stat,
+   open, listdir, temp-file creation, rename, unlink) is on a path under the root — or, for the temporary file under a relative
+   root, under the absolutised root (working directory ++ root: tempfile applies os.path.abspath) — and no entry outside
+   the root changes *)
+Theorem C19_conf_meaning : forall root aroot e, conf root aroot e ->
+  match e with
+  | ERename a b => okp root aroot a /\ okp root aroot b
+  | EStat p | EOpenRead p | EListDir p | EOpenDirW p | ECreate p | EUnlink p => under root p = true \/ under aroot p = true
+  end.
+Proof. intros root aroot e H. destruct e; exact H. Qed.
+Print Assumptions C19_conf_meaning.
 Theorem C19_confined : forall self, root_ok (fs_root self) -> fs_tmpname self <> DOTDOT -> forall req st,
   match serve self req st with
-  | (st', effs, _) => Forall (conf (load_parts (fs_root self))) effs
+  | (st', effs, _) => Forall (conf (load_parts (fs_root self)) (abspath self (load_parts (fs_root self)))) effs
                       /\ frame (parts (load_parts (fs_root self))) (st_fs st) (st_fs st')
   end.
 Proof. exact serve_confined. Qed.
@@ -50,7 +75,7 @@ Print Assumptions C19_confined.
 (* ... and over every history of requests and block-wise fetch loops *)
 Theorem C19_confined_histories : forall self items st, root_ok (fs_root self) -> fs_tmpname self <> DOTDOT ->
   match run self st items with
-  | (st', outs) => Forall (fun o => Forall (conf (load_parts (fs_root self))) (all_effects o)) outs
+  | (st', outs) => Forall (fun o => Forall (conf (load_parts (fs_root self)) (abspath self (load_parts (fs_root self)))) (all_effects o)) outs
                    /\ frame (parts (load_parts (fs_root self))) (st_fs st) (st_fs st')
   end.
 Proof. intros self items st H1 H2. exact (run_confined self H1 H2 items st). Qed.
@@ -73,7 +98,7 @@ Print Assumptions C19_error_has_no_effect.
 (* ================= 5. a file fetched block by block, with any block size exponent, is byte-identical to its content *)
 Theorem C19_blockwise_read_exact : forall self req p c szx fuel st,
   code req = 1 -> opt_observe req = None -> opt_etags req = [] -> parts_eqb (opt_uri_path req) WKC = false ->
-  nonempty_list (opt_uri_path req) && last_is_empty (opt_uri_path req) = false ->
+  needs_blockwise_assembly req = false ->
   request_to_localpath self req = Ok p -> fs_stat (st_fs st) (load_parts p) = inr (NFile c) ->
   0 <= szx -> (length c <= fuel)%nat ->
   match fetch_all fuel self req szx 0 st with
@@ -92,18 +117,71 @@ Theorem C19_block_is_slice : forall c n szx, 0 <= szx ->
 Proof. intros c n szx H. split; [exact (block_payload_spec c n szx H)|exact (block_more_spec c n szx H)]. Qed.
 Print Assumptions C19_block_is_slice.
 
+(* ================= 6. Block1 in front of PUT (needs_blockwise_assembly -> Block1Spool.feed_and_take): the spool has no
+   file-system effect at all; the last block releases the request with the body assembled from all blocks (that is what
+   render_put writes); a block that does not continue the body is answered with an error and changes nothing.  Theorems 2-4
+   above quantify over these requests too (serve includes the spool). *)
+Theorem C19_block1_spool_has_no_effect : forall req st,
+  match feed_and_take req st with
+  | ((st', effs), r) => st_fs st' = st_fs st /\ effs = [] /\
+      match r with inr req' => opt_uri_path req' = opt_uri_path req /\ code req' = code req | inl _ => True end
+  end.
+Proof. exact feed_and_take_spec. Qed.
+Print Assumptions C19_block1_spool_has_no_effect.
+Theorem C19_block1_last_block_assembles : forall req st num szx acc,
+  opt_block1 req = Some (num, false, szx) -> num <> 0 ->
+  spool_find (st_spool st) (block_key req) = Some acc -> blk_start num szx = blen acc ->
+  exists st', feed_and_take req st = ((st', []), inr (with_payload req (acc ++ payload req))) /\ st_fs st' = st_fs st.
+Proof. exact feed_last. Qed.
+Print Assumptions C19_block1_last_block_assembles.
+Theorem C19_block1_gap_rejected : forall req st num more szx acc,
+  opt_block1 req = Some (num, more, szx) -> num <> 0 ->
+  spool_find (st_spool st) (block_key req) = Some acc -> blk_start num szx <> blen acc ->
+  exists e, feed_and_take req st = ((st, []), inl e) /\ (e = XIncomplete \/ e = XBadRequest).
+Proof. exact feed_gap. Qed.
+Print Assumptions C19_block1_gap_rejected.
+
 (* ================= non-vacuity and witnesses *)
 Definition ex_root : list (list Z) := [S "/srv/root"].
-Definition ex_self : fileserver := {| fs_root := ex_root; fs_write := true; fs_etag_enabled := true; fs_tmpname := S "tmpabcd1234" |}.
+Definition ex_self : fileserver := {| fs_root := ex_root; fs_write := true; fs_etag_enabled := true; fs_tmpname := S "tmpabcd1234"; fs_cwd := [S "home"; S "u"] |}.
+Definition ex_rel (root : list Z) : fileserver := {| fs_root := [root]; fs_write := true; fs_etag_enabled := true; fs_tmpname := S "tmpabcd1234"; fs_cwd := [S "home"; S "u"] |}.
 Definition ex_req (m : Z) (path : list (list Z)) : request :=
-  {| code := m; opt_uri_path := path; opt_observe := None; opt_etags := []; opt_if_match := []; opt_if_none_match := false; opt_block2 := None; payload := [1; 2; 3] |}.
+  {| code := m; opt_uri_path := path; opt_observe := None; opt_etags := []; opt_if_match := []; opt_if_none_match := false; opt_block1 := None; opt_block2 := None; payload := [1; 2; 3] |}.
+Definition ex_blk (path : list (list Z)) (b1 : Z * bool * Z) (body : list Z) : request :=
+  {| code := 3; opt_uri_path := path; opt_observe := None; opt_etags := []; opt_if_match := []; opt_if_none_match := false; opt_block1 := Some b1; opt_block2 := None; payload := body |}.
 Definition ex_fs : fsys :=
   [([S "srv"], NDir); ([S "srv"; S "root"], NDir); ([S "srv"; S "root"; S "f"], NFile (pattern 40 1));
    ([S "srv"; S "secret"], NFile [7; 7; 7]); ([S "etc"], NDir); ([S "etc"; S "passwd"], NFile [9])].
-Definition ex_st : state := {| st_fs := ex_fs; st_obs := [] |}.
+Definition ex_st : state := {| st_fs := ex_fs; st_obs := []; st_spool := [] |}.
 
 Example C19_root_ok_nonvacuous : root_ok ex_root /\ fs_tmpname ex_self <> DOTDOT.
-Proof. split; [|discriminate]. split; [discriminate|]. exists 115, (S "rv/root"). split; [reflexivity|discriminate]. Qed.
+Proof. split; [|discriminate]. split; [discriminate|]. left. exists 115, (S "rv/root"). split; [reflexivity|discriminate]. Qed.
+Example C19_relative_roots_ok : root_ok [S "."] /\ root_ok [S "sub"] /\ root_ok [S "./sub/"] /\ root_ok [[]].
+Proof. repeat split; try discriminate; right; reflexivity. Qed.
+(* under the CLI's default root "." the hostile leading-empty request designates ./etc/passwd, and a PUT works on relative
+   paths except for tempfile's absolutised temporary name *)
+Example C19_relative_root_nonvacuous :
+  match request_to_localpath (ex_rel (S ".")) (ex_req 1 [[]; S "etc"; S "passwd"]) with
+  | Ok p => load_parts p = {| anchor := 0; parts := [S "etc"; S "passwd"] |} | Raise _ => False end
+  /\ match request_to_localpath (ex_rel (S "./sub/")) (ex_req 1 [S "a"; []; S "b"]) with
+     | Ok p => load_parts p = {| anchor := 0; parts := [S "sub"; S "a"; S "b"] |} | Raise _ => False end
+  /\ (let '(st', effs, r) := serve (ex_rel (S ".")) (ex_req 3 [S "new"]) {| st_fs := [([S "f"], NFile [1])]; st_obs := []; st_spool := [] |} in
+      rcode r = 68 /\ effs = [EOpenDirW {| anchor := 0; parts := [] |};
+                              ECreate {| anchor := 1; parts := [S "home"; S "u"; S "tmpabcd1234"] |};
+                              ERename {| anchor := 1; parts := [S "home"; S "u"; S "tmpabcd1234"] |} {| anchor := 0; parts := [S "new"] |};
+                              EStat {| anchor := 0; parts := [S "new"] |}]
+      /\ lookup (st_fs st') [S "new"] = Some (NFile [1; 2; 3])).
+Proof. vm_compute. repeat split. Qed.
+(* Block1: three blocks are assembled and written as one file; a block that does not continue the body is answered 4.08
+   and nothing is written; 2.31 responses have no effect *)
+Example C19_block1_nonvacuous :
+  let '(st', outs) := run ex_self ex_st [IOne (ex_blk [S "b"] (0, true, 0) (pattern 16 1)); IOne (ex_blk [S "b"] (1, true, 0) (pattern 16 2));
+                                        IOne (ex_blk [S "b"] (2, false, 0) [5; 6]); IOne (ex_blk [S "c"] (1, false, 0) [5; 6]);
+                                        IOne (ex_blk [S "b"] (1, true, 0) [5; 6])] in
+  map (map (fun o => (rcode (snd o), length (fst o)))) outs = [[(95, 0%nat)]; [(95, 0%nat)]; [(68, 4%nat)]; [(136, 0%nat)]; [(128, 0%nat)]]
+  /\ lookup (st_fs st') [S "srv"; S "root"; S "b"] = Some (NFile (pattern 16 1 ++ pattern 16 2 ++ [5; 6]))
+  /\ lookup (st_fs st') [S "srv"; S "root"; S "c"] = None.
+Proof. vm_compute. repeat split. Qed.
 
 (* the leading-empty-component request (finding F8) is now served below the root ... *)
 Example C19_leading_empty_is_confined :
